@@ -5,11 +5,11 @@ from pyPRISM.core.PairTable import PairTable
 from pyPRISM.core.ValueTable import ValueTable
 
 RULE = ("random op sequences over {caller object creation, set single/list x list from a caller object, setUnset, "
-        "apply in/out of place (pure function), in-place mutation of a stored object, in-place mutation of the caller's object, "
+        "apply in/out of place (pure function, incl. one that returns its argument unchanged), in-place mutation of a stored object, in-place mutation of the caller's object, "
         "check, iterate (3 flag combinations)} on real PairTables (1-4 types, multi-character type names) and on the Lean heap model; "
         "after EVERY op every table entry (both orders), every caller object, check() and the iteration lists are compared exactly, "
         "identity (`is`) isolation is probed, and the abstract symmetric-map spec (an independent pure replay) is compared with the implementation; "
-        "ValueTable: set/setUnset/check/iteration vs model and vs a dict replay. Non-trivial = >= 3 ops incl. >= 1 mutation after a multi-pair set; "
+        "ValueTable: set/setUnset/check/iteration vs model and vs a dict replay (integer values incl. 0, and NumPy-array values). Non-trivial = >= 3 ops incl. >= 1 mutation after a multi-pair set; "
         "distinct = distinct (n, op list)")
 EXTRA_TRUSTED = ["Model/Tables.lean: deepcopy = fresh cell, in-place change = write through the reference; stored objects are lists of ints, in half of the cases wrapped in an object with nested mutable state (only a deep copy isolates those)",
                  "apply() is exercised with pure functions only (the property's 'leaves the original untouched' presupposes that)"]
@@ -31,6 +31,7 @@ def vshow(v):
     return 'e' if len(v) == 0 else ','.join(str(int(e)) for e in v)
 
 def mut_inplace(obj, kind, x):
+    if kind == 'same': return
     if isinstance(obj, Box): obj = obj.items
     if kind == 'push': obj.append(x)
     elif kind == 'set0':
@@ -41,6 +42,7 @@ def mut_inplace(obj, kind, x):
 def pure(kind, x):
     def f(v):
         if v is None: return None
+        if kind == 'same': return v          # the function passes its input through
         wrap = Box if isinstance(v, Box) else (lambda t: t)
         v = list(v)
         if kind == 'push': return wrap(list(v) + [x])
@@ -164,22 +166,25 @@ def suite_vt(ctx, case):
     cur = {}
     for step, op in enumerate(case['ops']):
         sub = {'n': n, 'ops': case['ops'][:step + 1]}
+        arr = case.get('arr')
+        mk = (lambda v: np.array([v, v + 1.0])) if arr else (lambda v: v)
         if op['op'] == 'set':
-            vt[keyfor(op['ts'], types, op['style'])] = op['v']
+            vt[keyfor(op['ts'], types, op['style'])] = mk(op['v'])
             drv.ask('vt.set %d %s' % (op['v'], ' '.join(map(str, op['ts']))))
             for t in op['ts']: cur[t] = op['v']
         else:
-            vt.setUnset(op['v']); drv.ask('vt.unset %d' % op['v'])
+            vt.setUnset(mk(op['v'])); drv.ask('vt.unset %d' % op['v'])
             for t in range(n): cur.setdefault(t, op['v'])
         try:
             vt.check(); chk = 'true'
-        except ValueError:
-            chk = 'false'
-        it = list(vt)
+        except ValueError as e:
+            chk = 'false' if 'not fully specified' in str(e) or 'not' in str(e).lower() and 'ambiguous' not in str(e) else 'raised:' + str(e)[:40]
+        rd = (lambda v: None if v is None else int(v[0])) if arr else (lambda v: v)
+        it = [(i, t, rd(v)) for i, t, v in vt]
         line = '%s check %s' % (' '.join('%d:%s' % (i, 'N' if v is None else str(v)) for i, t, v in it), chk)
         ctx.corr('valuetable', sub, drv.ask('vt.obs'), line)
         ok = [(i, t, v) for i, t, v in it] == [(i, types[i], cur.get(i)) for i in range(n)] and \
-            all(vt[types[i]] == cur.get(i) for i in range(n)) and (chk == 'true') == (len(cur) == n)
+            all(rd(vt[types[i]]) == cur.get(i) for i in range(n)) and (chk == 'true') == (len(cur) == n) and chk in ('true', 'false')
         ctx.pred('valuetable', sub, ok, 'ValueTable differs from a keyed map after op %d' % step, key='C14:valuetable-map')
         if not ok: return
 
@@ -195,6 +200,7 @@ def gen_pt(rng, max_ops):
     for _ in range(rng.randint(2, max_ops)):
         k = rng.choice(['obj', 'set', 'set', 'set', 'unset', 'applyin', 'applyout', 'mutate', 'mutate', 'mutobj'])
         kind = rng.choice(['push', 'set0', 'add']); x = rng.randrange(1, 90)
+        if k in ('applyin', 'applyout') and rng.random() < 0.35: kind = 'same'
         if k == 'obj':
             ops.append({'op': 'obj', 'v': [rng.randrange(50) for _ in range(rng.randint(0, 3))]}); nobj += 1
         elif k == 'set':
@@ -219,7 +225,7 @@ def gen_vt(rng, max_ops):
         else:
             style = rng.choice(['single', 'list', 'tuple', 'array'])
             ops.append({'op': 'set', 'ts': idx_list(rng, n, style), 'style': style, 'v': rng.choice([0, 0, rng.randrange(1000), rng.randrange(1000)])})
-    return {'n': n, 'ops': ops}
+    return {'n': n, 'ops': ops, 'arr': rng.random() < 0.35}
 
 def generate(ctx):
     max_ops = ctx.n(12, 40)
